@@ -19,6 +19,7 @@ type c13Spec struct {
 	Kind string `json:"kind"` // cropparam | soil | rotation | endit | weather | dates
 	File string `json:"file,omitempty"`
 	Var  int    `json:"var,omitempty"`
+	Pre  string `json:"pre,omitempty"`  // cropparam: the crop grown before the crop under test ("" = winter wheat): ZR and CCM are the shipped files that set the optional keys (sub-organ, N-content coefficients, end stage)
 	Hist int    `json:"hist,omitempty"` // 1: all encodings run in ONE session that first ran another project (other column orders, formats, layout); 2: one session, encodings in reverse order
 }
 
@@ -31,6 +32,9 @@ func c13Specs(tier string, seed int) []c13Spec {
 		}
 		for v := 0; v < nv; v++ {
 			out = append(out, c13Spec{Kind: "cropparam", File: f, Var: v})
+		}
+		for _, pre := range []string{"ZR", "CCM"} {
+			out = append(out, c13Spec{Kind: "cropparam", File: f, Pre: pre})
 		}
 	}
 	for v := 0; v < len(c13Soils()); v++ {
@@ -449,7 +453,7 @@ func c13Run(raw json.RawMessage, c *mc.Ctx) {
 		label = fmt.Sprintf("project %d in the four date formats", sp.Var)
 	}
 	c.Eval(1)
-	h := mc.NewHasher().S(sp.Kind).S(sp.File).I(sp.Var).I(sp.Hist).Sum()
+	h := mc.NewHasher().S(sp.Kind).S(sp.File).I(sp.Var).I(sp.Hist).S(sp.Pre).Sum()
 	c.State(h)
 	if len(encs) < 2 {
 		return
@@ -486,6 +490,9 @@ func c13CropParam(c *mc.Ctx, sp c13Spec, root string, run func(string, *proj.Pro
 	b := e1Base{Soil: "loam12", GW: 99, InitW: 0.7, InitN: 40, ET: 3, Start: "2001-08-15"}
 	p := e1Project(b, 780)
 	rot := append(p.Rotation[:1], proj.CropEntry{Crop: "WW", Sow: "2001-10-05", Harvest: "2002-07-25", Rex: 50})
+	if sp.Pre != "" {
+		rot = append(p.Rotation[:1], proj.CropEntry{Crop: sp.Pre, Sow: "2002-04-15", Harvest: "2002-07-30", Rex: 0})
+	}
 	switch {
 	case abbr == "AA" || abbr == "GR":
 		rot = append(rot, proj.CropEntry{Crop: abbr, Sow: "2002-08-10", Harvest: "2003-06-01", Rex: 100, Variety: variety}, proj.CropEntry{Crop: abbr, Sow: "2003-06-02", Harvest: "2003-09-20", Rex: 100, Variety: variety})
@@ -516,6 +523,9 @@ func c13CropParam(c *mc.Ctx, sp c13Spec, root string, run func(string, *proj.Pro
 		mc.HarnessError("read %s: %v", sp.File, err)
 	}
 	label := fmt.Sprintf("crop file %s (after winter wheat), shipped content", sp.File)
+	if sp.Pre != "" {
+		label = fmt.Sprintf("crop file %s (after %s), shipped content", sp.File, sp.Pre)
+	}
 	if sp.Var > 0 {
 		// variant: edit a group of fields of the classic file (all base parameters / all parameters of one stage / partitioning of one stage)
 		cp, err := hermes.ReadCropParamFromFile(filepath.Join(paramDir, sp.File+".yml"))
